@@ -153,7 +153,8 @@ def variant_binary(ctx, bdir, keys):
             open(dp, "w").write(FIXES[k]["diff"])
             p = subprocess.run(["patch", "-p1", "-s", "-i", dp], cwd=vdir, capture_output=True, text=True)
             if p.returncode != 0:
-                raise RuntimeError("patch does not apply: " + p.stdout[-300:])
+                rv = subprocess.run(["patch", "-p1", "-s", "-R", "--dry-run", "-i", dp], cwd=vdir, capture_output=True, text=True)
+                raise RuntimeError("already applied in this tree" if rv.returncode == 0 else "patch does not apply: " + p.stdout[-200:])
         ninja = open(os.path.join(bdir, "build.ninja")).read()
         cxx = re.search(r"^cxx = (.*)$", ninja, re.M).group(1)
         cflags = re.search(r"^cflags = (.*)$", ninja, re.M).group(1)
